@@ -137,6 +137,20 @@ def make_jobs(chk):
             n += 1
             jobs.append(SessionJob("e%d:zs:%s" % (n, opn), b"\x51\x52\x93", [], [], "TAPSCRIPT" if n % 3 == 0 else "BASE", z=True,
                                    cmds=["step", ("exec %s %s OP_%s" % (x or "OP_0", extra, opn)).replace("  ", " "), "steps"], cmp=CMP))
+    # whole tapscript spends with a real signature behind an executed OP_CODESEPARATOR: operations typed at the prompt before the separator is
+    # reached are not operations of the script (BIP342 signs the separator's position IN THE SCRIPT), the signature must still verify
+    import gen_spend
+    made = 0
+    for rep in range(200):
+        if made >= (4 if quick else 30): break
+        c = gen_spend.SpendCase(rng, "p2tr-script", "valid", 1, 0, 0, pathlen=rep % 2)
+        if getattr(c, "cspos", 0xffffffff) == 0xffffffff: continue
+        made += 1
+        for pat in (["step"] * (1 + rep % 2) + ["exec OP_NOP", "steps"], ["step"] * (1 + rep % 2) + ["exec OP_1 OP_DROP", "step", "exec OP_NOP OP_NOP", "steps"],
+                    ["step"] * (2 + rep % 2) + ["exec OP_7 OP_DROP", "rewind", "exec OP_NOP", "steps"]):
+            n += 1
+            jobs.append(SessionJob("e%d:signed-codesep" % n, b"", [], drivers.STANDARD, "BASE", cmds=pat, cmp=[x for x in gen_spend.CMP_SPEND if x != "verdict"] + ["cspos", "oppos"],
+                                   hist=True, auto=True, txctx={"tx": c.tx.hex(), "txin": c.funding.hex(), "select": -1}))
     # op-count budget shared between script and exec: near the limit
     base = b"\x51" + bytes([O["NOP"]]) * 150
     for extra in (49, 50, 51, 52):
